@@ -108,6 +108,7 @@ QUICK = [
     VCfg("f", 16, "TC12", "none", "uint8_t", "v8"),
     # element whose move operations are not noexcept (the noexcept(false) variants of every helper), partner with a narrower size_type
     VCfg("v", 0, "NTRTM", "basic", "uint32_t", "s8_4"),
+    VCfg("s", 4, "NTRTM", "basic", "uint32_t", "v"),  # .. with inline storage: the inline-storage promise does not depend on the nothrow-ness of the moves
     # same width, other signedness of the size types of the two swap2 operands
     VCfg("v", 0, "TR", "basic", "uint8_t", "si8_4"),
     # raw arithmetic elements (std::is_arithmetic / is_trivial special cases; +0.0 / -0.0 / NaN values)
